@@ -510,9 +510,12 @@ def run_dict_ids(ctx, rng, cd, tie, n):
                 ri += 1
                 return recs[ri - 1]
             return None
+        lastq, key = None, None
         for p in c["plan"]:
             if bad:
                 break
+            if p[0] == "q":
+                lastq = p[1]
             if p[0] == "set":
                 x = nxt()
                 if x is None or "=E" in x:
@@ -541,6 +544,8 @@ def run_dict_ids(ctx, rng, cd, tie, n):
                         bad = "frame %s: the model refuses it with dictionary_wrong, the implementation decoded it (%d bytes, %s)" % (
                             p[4], len(got), "the right content" if got == p[1] else "other content")
                         concrete = True
+                        if lastq and lastq.endswith(",0") and not lastq.startswith("q=0,"):
+                            key = KEY_STALE       # a used-up prefix had left its pointer behind (dictUses == dont_use, ddict != NULL)
                     elif "Dictionary_mismatch" not in err:
                         bad = "frame %s: expected dictionary_wrong, got %s" % (p[4], err)
             else:
@@ -565,7 +570,7 @@ def run_dict_ids(ctx, rng, cd, tie, n):
             nv += 1
             ctx.violation(dict(kind="reuse-history", ops=c["ops"], model_ops=c["mops"], stream_hex=c["stream"].hex()[:60000], dict1_hex=d1.hex(), dict2_hex=d2.hex(),
                                desc=c["desc"]),
-                          what="dictionary-ID history (%s; ops %s): %s" % (c["desc"], c["ops"][:160], bad), no_input=not concrete)
+                          what="dictionary-ID history (%s; ops %s): %s%s" % (c["desc"], c["ops"][:160], bad, " [%s]" % key if key else ""), no_input=not concrete, key=key)
         else:
             ctx.cov["traces_validated_against_impl"] += 1
     return len(cases), nv
